@@ -330,7 +330,7 @@ fn oracle(c: &Case, recs: &[Rec]) -> (Option<(String, String)>, Vec<String>, boo
             let heads: Vec<(u64, u16, bool)> =
                 recs.iter().filter_map(|r| if let Rec::Head(t, st, cl) = r { Some((*t, *st, *cl)) } else { None }).collect();
             let ends = recs.iter().filter(|r| matches!(r, Rec::End(_))).count();
-            let ok_heads = heads.iter().filter(|h| h.1 == 200).count();
+            let ok_heads = heads.iter().filter(|h| h.1 == 200 || h.1 == 500).count();
             if !hang || true {
                 if ok_heads < calls.len() || ends < calls.len() {
                     // only a violation if the handler would have finished before the horizon
@@ -544,9 +544,11 @@ fn gen(ctx: &Ctx) -> Vec<String> {
         let t0 = a + rng.below(600) as u64;
         let delay = *rng.pick(&[0u64, 100, 300, 600]);
         let gap = *rng.pick(&[100u64, 250]);
-        let body = match rng.below(3) {
+        let body = match rng.below(5) {
             0 => "e".to_owned(),
             1 => "s".to_owned(),
+            2 => "x".to_owned(),
+            3 => "y".to_owned(),
             _ => format!("t{gap}"),
         };
         let marks = [t0, t0 + delay, t0 + delay + gap, a];
@@ -629,7 +631,7 @@ fn gen(ctx: &Ctx) -> Vec<String> {
         }
         let nh = rng.range(1, 3);
         let hsv: Vec<String> = (0..nh)
-            .map(|_| format!("{}:{}", rng.pick(&[0u64, 0, 150, 500]), rng.pick(&["e", "s", "t100", "t600"])))
+            .map(|_| format!("{}:{}", rng.pick(&[0u64, 0, 150, 500]), rng.pick(&["e", "s", "t100", "t600", "x", "y"])))
             .collect();
         w.push(format!("h={}", hsv.join(",")));
         let mut tcur = a;
